@@ -157,7 +157,11 @@ def default_ref():
 
 def ref_table(T):
     t = dict(default_ref())
-    for k, (v, dimname_or_rdim, pref) in T.items():
+    for k, row in T.items():
+        if row is None:
+            t.pop(k, None)  # a user symbol that shadowed a built-in of the same name and was then removed: the name is gone
+            continue
+        v, dimname_or_rdim, pref = row
         t[k] = (v, dimname_or_rdim, 0.0, pref)
     return t
 
@@ -184,13 +188,13 @@ def ref_apply(T, ev):
         return "ok"
     if k == "modf":
         _, sym, v = ev
-        if sym not in T:
+        if T.get(sym) is None:
             return "raise"
         T[sym] = (v, T[sym][1], T[sym][2])
         return "ok"
     if k == "modq":
         _, sym, v, u = ev
-        if sym not in T:
+        if T.get(sym) is None:
             return "raise"
         sc, dn = UNIT_SI[u]
         T[sym] = (v * sc, RDIMS[dn], T[sym][2])
@@ -199,6 +203,8 @@ def ref_apply(T, ev):
         # modify(sym, quantity expressed in sym itself, in the same registry): the new value is factor x the current one
         _, sym, factor = ev
         cur = T.get(sym)
+        if sym in T and cur is None:
+            return "raise"
         if cur is None:
             d = default_ref().get(sym)
             if d is None:
@@ -208,9 +214,12 @@ def ref_apply(T, ev):
         return "ok"
     if k == "rem":
         _, sym = ev
-        if sym not in T:
+        if T.get(sym) is None:
             return "raise"
-        del T[sym]
+        if sym in default_ref():
+            T[sym] = None  # the user row replaced the built-in one: removing it removes the name altogether
+        else:
+            del T[sym]
         return "ok"
     if k == "def":
         _, sym, v, u, pref = ev
@@ -354,7 +363,11 @@ def cold_registry(T):
 
     lut = dict(default_unit_symbol_lut)
     r = UnitRegistry(lut=lut, add_default_symbols=False)
-    for sym, (v, rdim, pref) in T.items():
+    for sym, row in T.items():
+        if row is None:
+            r.remove(sym)
+            continue
+        v, rdim, pref = row
         dim = [DIMS[n] for n, d in RDIMS.items() if d == rdim][0]
         r.add(sym, float(v), dim, prefixable=pref)
     return r
@@ -387,7 +400,7 @@ class System:
     def canon(self, w, hist):
         lru_events = tuple(ev for ev in hist if ev[0] in ("mul", "conv", "add2", "base", "sqrt", "div", "simp"))
         return (
-            tuple(sorted((k, (v[0], repr(v[1]), v[2])) for k, v in w.T.items())),
+            tuple(sorted((k, None if v is None else (v[0], repr(v[1]), v[2])) for k, v in w.T.items())),
             world.lut_delta(w.r.lut, world._PRISTINE_TABLE),
             world.cache_digest(w.r),
             lru_events,
@@ -407,7 +420,7 @@ class System:
             k = ev[0]
             if ev == ("modself", "s", 2.0) and ev in hist:
                 continue  # once per history: a second rescaling of a base symbol by itself is ill-defined in the library
-            if k in ("modf", "modq", "rem") and ev[1] not in w.T:
+            if k in ("modf", "modq", "rem") and w.T.get(ev[1]) is None:
                 if ev[1] in default_ref():
                     continue  # 'bar' is also a BUILT-IN unit: editing the built-in row is outside the reference model of user content
                 # edits of symbols that are not user content are only exercised once (must raise)
@@ -416,7 +429,7 @@ class System:
             if ("modself", "s", 2.0) in hist and k in ("modq", "modself", "def"):
                 continue  # once the base symbol s is redefined, quantity-valued edits are evaluated through it: not modelled
             evs.append(ev)
-        if w.T:
+        if any(v is not None for v in w.T.values()):
             for ev in self.seeds:
                 if ev in hist[-2:]:
                     continue
@@ -431,8 +444,10 @@ class System:
         # edit outcomes agree with the reference model
         for ev, want, got in w.edit_results:
             if (got == "ok") != (want == "ok"):
+                # was the edited name materialised earlier as prefix + user symbol (a derived row the library wrote back)?
+                derived = any(ev[1] == p + e[1] for p in ("k", "M", "u", "m") for e in hist if e[0] in ("add", "def") and e[1] != ev[1])
                 ctx.violation(
-                    f"C12|edit|kind={ev[0]}|want={want}|got={got.split(':')[0]}|mode=edit-outcome",
+                    f"C12|edit|kind={ev[0]}|want={want}|got={got.split(':')[0]}|name={'earlier-derived-prefixed-row' if derived else 'plain'}|mode=edit-outcome",
                     case,
                     want,
                     got,
